@@ -1,3 +1,4 @@
 pub mod inflight;
 pub mod window;
 pub mod selection;
+pub mod stallguard;
